@@ -38,6 +38,79 @@ fn probe() {
     std::fs::remove_dir_all(&root).unwrap();
 }
 
+/// Shim-completeness audit: one scenario per operation kind, run as a participant between two marker
+/// system calls; prints the shim's per-kind counts.  `tools/audit.py` runs this under strace and
+/// compares them with what the kernel saw from the same thread.
+fn audit() {
+    use ops::{Act, Front, Op, Pop, StackCfg, K};
+    use world::{Size, Val};
+    run::reset_env();
+    shim::set_atime_policy(shim::ATIME_NOATIME);
+    shim::clock_real();
+    let sc = world::Scratch::new();
+    let dirs = ops::Dirs::under(&sc.root, 1);
+    let old = run::base_time_ns() as i128 - 86_400_000_000_000;
+    world::plant(&dirs.reads[0].join("promoted"), &Val::new(3, Size::Chunks).bytes(), 0o444, old - 120_000_000_000, old);
+    for i in 0..4 {
+        world::plant(&dirs.write.join(format!("e{}", i)), b"x", 0o444, old + 5, old);
+    }
+    let cfg = StackCfg { writer: Some((Front::Plain, 2)), readers: vec![Front::Plain], checker: ops::Checker::ByteEq, auto_sync: true };
+    let cache = ops::build(&cfg, &dirs, None);
+    let sharded = ops::build(
+        &StackCfg { writer: Some((Front::Sharded(3), 3)), readers: vec![], checker: ops::Checker::None, auto_sync: true },
+        &ops::Dirs { write: sc.path("ws"), reads: vec![], app_tmp: dirs.app_tmp.clone() },
+        None,
+    );
+    let k = |n: &str| K::new(n, 1, 2);
+    let opsv = vec![
+        Op::Ensure(k("a"), Pop::Value(Val::new(1, Size::Chunks))),
+        Op::Get(k("a")),
+        Op::Touch(k("a")),
+        Op::Set(k("b"), Val::one(2)),
+        Op::Put(k("b"), Val::one(3)),
+        Op::SetTemp(k("c"), Val::one(4)),
+        Op::PutTemp(k("c"), Val::one(5)),
+        Op::Ensure(k("promoted"), Pop::Value(Val::new(3, Size::Chunks))),
+        Op::Gou(k("a"), Act::Replace, Pop::Value(Val::one(6))),
+        Op::Get(k("missing")),
+        Op::Touch(k("missing")),
+    ];
+    let marker = std::ffi::CString::new("/kverif-audit-marker").unwrap();
+    unsafe { libc::syscall(libc::SYS_access, marker.as_ptr(), 0) };
+    let (_r, trace) = run::as_participant(0, 0, || {
+        for (i, op) in opsv.iter().enumerate() {
+            run::trigger_fire_next(u64::MAX);
+            let c = if i % 2 == 0 { &cache } else { &cache };
+            let _ = ops::exec(c, &dirs, op, &Default::default());
+            let _ = ops::exec(&sharded, &dirs, op, &Default::default());
+        }
+    });
+    unsafe { libc::syscall(libc::SYS_access, marker.as_ptr(), 0) };
+    let mut counts: std::collections::BTreeMap<String, u64> = Default::default();
+    for e in &trace {
+        let key = match e.kind {
+            shim::Kind::Open => "open",
+            shim::Kind::Stat => "stat",
+            shim::Kind::Rename => "rename",
+            shim::Kind::Link => "link",
+            shim::Kind::Unlink => "unlink",
+            shim::Kind::Mkdir => "mkdir",
+            shim::Kind::Chmod => "chmod",
+            shim::Kind::Fchmod => "fchmod",
+            shim::Kind::Fsync => "fsync",
+            shim::Kind::Utimens => "utimens",
+            shim::Kind::CopyRange => "copy_file_range",
+            shim::Kind::Write => "write",
+            shim::Kind::Opendir => "opendir",
+            shim::Kind::Close => "close",
+            shim::Kind::Closedir => "closedir",
+            _ => continue,
+        };
+        *counts.entry(key.to_string()).or_insert(0) += 1;
+    }
+    println!("SHIM-COUNTS {}", serde_json::to_string(&counts).unwrap());
+}
+
 fn arg_after<'a>(args: &'a [String], flag: &str) -> Option<&'a str> {
     args.iter()
         .position(|a| a == flag)
@@ -114,6 +187,7 @@ fn main() {
     }
     match args.get(1).map(|s| s.as_str()) {
         Some("probe") => probe(),
+        Some("audit") => audit(),
         Some("outcomes") => {
             // debug: kverif outcomes C06 <program-name> [bound]: distinct outcome classes of one program
             let prop = args.get(2).expect("property").clone();
